@@ -117,6 +117,7 @@ type simCluster struct {
 	rec     *json.Encoder
 	lastEv  map[string]interface{}
 	evExtra []map[string]interface{}
+	acts    []map[string]interface{}
 }
 
 type crashSpec struct {
@@ -229,6 +230,44 @@ func installSimHooks() {
 		}
 		c.onHook(point, args...)
 	}
+	// the library's own tracer points: what a leader does inside a step, at the instant it does it
+	tracer.configChanged = func(r *Raft) {
+		c := simCur
+		if c == nil || r.state != Leader || r.ldr == nil {
+			return
+		}
+		c.acts = append(c.acts, map[string]interface{}{"kind": "cfgChanged", "n": r.nid, "index": r.configs.Latest.Index,
+			"prev": r.configs.Committed.Index, "commit": r.commitIndex, "start": r.ldr.startIndex})
+	}
+	tracer.configActionStarted = func(r *Raft, id uint64, action Action) {
+		c := simCur
+		if c == nil || id == r.nid || r.ldr == nil {
+			return
+		}
+		repl, ok := r.ldr.repls[id]
+		if !ok {
+			return
+		}
+		st := repl.status
+		m := map[string]interface{}{"kind": "action", "n": r.nid, "id": id, "action": action.String(), "match": st.matchIndex,
+			"rdone": false, "rlast": uint64(0), "last": r.lastLogIndex}
+		if st.round != nil {
+			m["rdone"], m["rlast"] = st.round.finished(), st.round.LastIndex
+		}
+		c.acts = append(c.acts, m)
+	}
+	tracer.shuttingDown = func(r *Raft, reason error) {
+		c := simCur
+		if c == nil || reason != ErrNodeRemoved {
+			return
+		}
+		_, member := r.configs.Latest.Nodes[r.nid]
+		c.acts = append(c.acts, map[string]interface{}{"kind": "stopped", "n": r.nid, "commit": r.commitIndex,
+			"cfgIndex": r.configs.Latest.Index, "member": member})
+	}
+	tracer.stateChanged, tracer.leaderChanged, tracer.electionStarted, tracer.electionAborted = nil, nil, nil, nil
+	tracer.commitReady, tracer.configCommitted, tracer.configReverted, tracer.unreachable = nil, nil, nil, nil
+	tracer.quorumUnreachable, tracer.roundCompleted, tracer.logCompacted = nil, nil, nil
 }
 
 func (c *simCluster) onHook(point string, args ...interface{}) {
@@ -258,6 +297,18 @@ func (c *simCluster) onHook(point string, args ...interface{}) {
 		c.undialed[k] = append(c.undialed[k], rpc)
 		c.mu.Unlock()
 		c.rpcs = append(c.rpcs, rpc)
+	}
+	if point == "leader.flushed" {
+		// the commit decision: the voters of the configuration in force at this instant (C06)
+		r := args[0].(*Raft)
+		vs := []uint64{}
+		for id, nd := range r.configs.Latest.Nodes {
+			if nd.Voter {
+				vs = append(vs, id)
+			}
+		}
+		sort.Slice(vs, func(i, j int) bool { return vs[i] < vs[j] })
+		c.acts = append(c.acts, map[string]interface{}{"kind": "commit", "n": r.nid, "index": args[1].(uint64), "voters": vs})
 	}
 	// crash injection
 	if cs := c.crashAt; cs != nil && !c.crashFired && cs.point == point {
